@@ -24,7 +24,7 @@ FLOORS = {
                  'props_judged': 40000, 'calls_judged': 5000, 'disj3_judged': 4000, 'subsecond_judged': 4000},
 }
 BUDGET = {
-    'quick': {'exprs': 7000, 'props': 5000, 'specs': 400, 'refs': 1},
+    'quick': {'exprs': 12000, 'props': 8000, 'specs': 600, 'refs': 1},
     'thorough': {'exprs': 200000, 'props': 120000, 'specs': 10000, 'refs': 1},
 }
 TIME_NUMS = ('1', '5', '10', '100', '0.5', '0.1', '250', '3.5', '1000', '0.001', '72.33', '0.07233', '1e9', '1e20',
